@@ -492,7 +492,7 @@ func Int64Val(x Value) (int64, bool) {
 	case int64Val:
 		return int64(x), true
 	case intVal:
-		return x.val.Int64(), false // not an int64Val and thus not exact
+		return x.val.Int64(), x.val.IsInt64() // Make(*big.Int) does not normalize small values
 	case unknownVal:
 		return 0, false
 	default:
